@@ -5,48 +5,65 @@ from vlib.core import Ctx, hexs, unhex, ddmin, load_known_findings
 ID = "C19"
 MODULES = ["IoraModel.Props.C19"]
 LEANCHECK = ["IoraModel.Props.C19", "IoraModel.Lemmas.Dns", "IoraModel.Lemmas.DnsSafe", "IoraModel.Lemmas.DnsName", "IoraModel.Lemmas.DnsRoundtrip",
-             "IoraModel.Lemmas.DnsRecords", "IoraModel.Lemmas.DnsMessage", "IoraModel.Lemmas.DnsTyped", "IoraModel.Lemmas.DnsCache", "IoraModel.Lemmas.DnsTransport",
+             "IoraModel.Lemmas.DnsRecords", "IoraModel.Lemmas.DnsMessage", "IoraModel.Lemmas.DnsTyped", "IoraModel.Lemmas.DnsWork", "IoraModel.Lemmas.DnsCache", "IoraModel.Lemmas.DnsTransport",
              "IoraModel.Model.Dns", "IoraModel.Model.DnsCache", "IoraModel.Model.DnsTransport", "IoraModel.Spec.DnsWire"]
 OBLIGATIONS = [
     {"id": "C19_N1a", "theorem": "Iora.C19.N1_sound", "kind": "proved",
-     "statement": "Denotes m off ls next (RFC 1035 relation, any layout of compression pointers) and wire ls <= 253 -> decodeName m off = ok (dotted ls, next)"},
+     "statement": "WellFormedName m off ls next (RFC 1035 relation for any layout of compression pointers + RFC limit 255 octets incl. root + at most 128 pointers followed) -> decodeName m off = ok (dotted ls, next)"},
     {"id": "C19_N1b", "theorem": "Iora.C19.N1_complete", "kind": "proved",
-     "statement": "decodeName m off = ok (n, next) -> exists ls, Denotes m off ls next and n = dotted ls (exact or rejected; needs the FC19a repair)"},
+     "statement": "decodeName m off = ok (n, next) -> exists ls, WellFormedName m off ls next and n = dotted ls (exact or rejected)"},
+    {"id": "C19_N1_exact", "theorem": "Iora.C19.N1_exact", "kind": "proved", "statement": "decodeName = ok (n, next) IFF a well-formed name with presentation form n stands at off and continues at next"},
+    {"id": "C19_N1_denotes", "theorem": "Iora.C19.N1_denotes_iff", "kind": "proved", "statement": "the relation with and without the pointer count describe the same names"},
+    {"id": "C19_N1_max", "theorem": "Iora.C19.N1_max_length_name_accepted", "kind": "proved",
+     "statement": "the legal maximum-length name (255 octets on the wire, 63.63.63.61) is accepted (FC19b repaired)"},
     {"id": "C19_N1_dotted", "theorem": "Iora.C19.N1_dotted", "kind": "proved", "statement": "presentation form = labels joined by dots"},
+    {"id": "C19_N1_enc", "theorem": "Iora.C19.N1_encodeName", "kind": "proved",
+     "statement": "encodeName n = ok w -> w is the uncompressed RFC encoding of the non-empty pieces, labels 1..63, |w| <= 255"},
     {"id": "C19_N1c", "theorem": "Iora.C19.N1_roundtrip", "kind": "proved",
      "statement": "encodeName n = ok w -> decodeName (pre ++ w ++ post) |pre| = ok (dotted (labelsOf n), |pre| + |w|)"},
     {"id": "C19_N1q", "theorem": "Iora.C19.N1_query_roundtrip", "kind": "proved",
-     "statement": "parse (buildQuery qs rd id) returns id, RD and the same questions (names normalised), empty sections"},
-    {"id": "C19_N3", "theorem": "Iora.C19.N3_parse_no_oob", "kind": "proved", "statement": "for arbitrary bytes parse never reads out of range (every read of the model goes through rd)"},
+     "statement": "parse (buildQuery qs rd id generated) returns the id (the caller's if non-zero, else the generated one), RD and the same questions, empty sections"},
+    {"id": "C19_N1_gen", "theorem": "Iora.C19.N1_gen_shape", "kind": "gen-conformance",
+     "statement": "Gen tripwire (rfl): limit 255 counting the root label, jump bound 128 present, unterminated name is an error"},
+    {"id": "C19_N3", "theorem": "Iora.C19.N3_parse_no_oob", "kind": "proved",
+     "statement": "for arbitrary bytes parse never reads out of range: single reads (rd) AND bulk copies (copy: name.append, rdata.assign, AAAA memcpy, TXT/NAPTR strings) have the explicit outcome oob"},
     {"id": "C19_N3_name", "theorem": "Iora.C19.N3_name_no_oob", "kind": "proved", "statement": "decodeName never reads out of range, any offset"},
     {"id": "C19_N3_rdata", "theorem": "Iora.C19.N3_rdataName_no_oob", "kind": "proved", "statement": "decodeNameFromRdata never reads out of range, arbitrary arguments"},
-    {"id": "C19_N4a", "theorem": "Iora.C19.N4_name_fuel", "kind": "proved", "statement": "decodeName: at most size+127 loop iterations for arbitrary bytes"},
+    {"id": "C19_N4a", "theorem": "Iora.C19.N4_name_fuel", "kind": "proved", "statement": "decodeName never exhausts its fuel, arbitrary bytes"},
+    {"id": "C19_N4a_const", "theorem": "Iora.C19.N4_name_iterations_constant", "kind": "proved", "statement": "that fuel is the constant 257: the cost of one name does not depend on the message"},
     {"id": "C19_N4b", "theorem": "Iora.C19.N4_parse_fuel", "kind": "proved", "statement": "parse never exhausts fuel"},
+    {"id": "C19_N4d", "theorem": "Iora.C19.N4_message_rounds_linear", "kind": "proved",
+     "statement": "5 * (question/record rounds parse executes) <= size + 11, whatever the header counts claim"},
+    {"id": "C19_N4e", "theorem": "Iora.C19.N4_message_work_linear", "kind": "proved",
+     "statement": "rounds * 3 names per round * 257 iterations per name <= ((size + 11) / 5) * 771: total name-loop work linear in the message size (3 names/round read off the model)"},
     {"id": "C19_N4c_self", "theorem": "Iora.C19.N4_self_pointer_rejected", "kind": "proved", "statement": "a self-pointing name is an error at every offset < 16384"},
     {"id": "C19_N4c_range", "theorem": "Iora.C19.N4_out_of_range_rejected", "kind": "proved", "statement": "a pointer to an offset >= size is an error"},
+    {"id": "C19_N4f", "theorem": "Iora.C19.N4_rdata_error_drops_typed", "kind": "proved",
+     "statement": "when a typed RDATA parser throws (loop / out-of-range pointer / truncation inside RDATA) the raw record is kept and the typed record omitted; the message is not rejected"},
     {"id": "C19_N2_A_refuted", "theorem": "Iora.C19.N2_A_refuted", "kind": "refuted", "finding": "F13A",
      "statement": "NOT (validateRdataSecurity never rejects a 4-byte A record): 192.32.0.0"},
     {"id": "C19_N2_A_witness", "theorem": "Iora.C19.N2_A_witness_rejected", "kind": "refuted", "finding": "F13A",
      "statement": "the complete well-formed response carrying A 192.32.0.0 is rejected as malicious"},
     {"id": "C19_N2_A_partial", "theorem": "Iora.C19.N2_A_partial", "kind": "partial", "finding": "F13A",
      "statement": "outside aRuleFires (192.x.0.0, x<64) every 4-byte A record passes and its typed form is its 4 octets"},
+    {"id": "C19_N2_A_tight", "theorem": "Iora.C19.N2_A_carveout_tight", "kind": "proved", "finding": "F13A",
+     "statement": "inside aRuleFires every 4-byte A record IS rejected: the carve-out is exactly what is lost"},
     {"id": "C19_N2_other", "theorem": "Iora.C19.N2_other_types_pass", "kind": "proved", "statement": "validateRdataSecurity rejects no record of any type other than A (F12/F13 repair)"},
-    {"id": "C19_N2_gen", "theorem": "Iora.C19.N2_gen_shape", "kind": "proved", "statement": "Gen: validateRdataSecurity inspects type A only and has no size()-1 arithmetic"},
+    {"id": "C19_N2_gen", "theorem": "Iora.C19.N2_gen_shape", "kind": "gen-conformance", "statement": "Gen tripwire (rfl): validateRdataSecurity inspects type A only and has no size()-1 arithmetic"},
     {"id": "C19_N2_aaaa", "theorem": "Iora.C19.N2_aaaa_exact", "kind": "proved", "statement": "any 16 octets decode to exactly that AAAA address"},
     {"id": "C19_N2_txt", "theorem": "Iora.C19.N2_txt_exact", "kind": "proved", "statement": "any sequence of character strings decodes to exactly those strings"},
-    {"id": "C19_N1_rfc_refuted", "theorem": "Iora.C19.N1_rfc_limit_refuted", "kind": "refuted", "finding": "FC19b",
-     "statement": "NOT (N1a with the RFC limit wire <= 254): the legal 255-octet name 63.63.63.61 is rejected as too long; partial = N1_sound"},
     {"id": "C19_N2_response", "theorem": "Iora.C19.N2_response", "kind": "partial", "finding": "F13A",
-     "statement": "a response laid out per RFC 1035 4.1 with every question/owner name compressed in any way (Denotes) and no record tripping the A rule parses to exactly its header, questions and records; typed = per-record typedSpec"},
+     "statement": "a response laid out per RFC 1035 4.1 with every question/owner name a WellFormedName (any compression; RFC length limit; <= 128 pointers per name) and no record tripping the A rule "
+                  "parses to exactly its header, questions and records; typed = per-record typedSpec (characterised per type for A/AAAA/TXT/CNAME/PTR/MX/SRV; SOA/NAPTR by lockstep only)"},
     {"id": "C19_N2_rdata_name", "theorem": "Iora.C19.N2_rdata_name", "kind": "proved",
-     "statement": "decodeNameFromRdata returns exactly the name (any compression layout) and the offset behind it"},
+     "statement": "decodeNameFromRdata returns exactly the well-formed name (any compression layout; root name as a root label included) and the offset behind it"},
     {"id": "C19_N2_typed_a", "theorem": "Iora.C19.N2_typed_a", "kind": "proved", "statement": "typed A = its 4 octets"},
     {"id": "C19_N2_typed_aaaa", "theorem": "Iora.C19.N2_typed_aaaa", "kind": "proved", "statement": "typed AAAA = its 16 octets"},
     {"id": "C19_N2_typed_txt", "theorem": "Iora.C19.N2_typed_txt", "kind": "proved", "statement": "typed TXT = its character strings"},
-    {"id": "C19_N2_typed_cname", "theorem": "Iora.C19.N2_typed_cname", "kind": "proved", "statement": "typed CNAME = the RDATA name, any compression"},
-    {"id": "C19_N2_typed_ptr", "theorem": "Iora.C19.N2_typed_ptr", "kind": "proved", "statement": "typed PTR = the RDATA name, any compression"},
-    {"id": "C19_N2_typed_mx", "theorem": "Iora.C19.N2_typed_mx", "kind": "proved", "statement": "typed MX = preference + exchange name, any compression"},
-    {"id": "C19_N2_typed_srv", "theorem": "Iora.C19.N2_typed_srv", "kind": "proved", "statement": "typed SRV = priority, weight, port + target name, any compression"},
+    {"id": "C19_N2_typed_cname", "theorem": "Iora.C19.N2_typed_cname", "kind": "proved", "statement": "typed CNAME = the RDATA name, any compression within the limits"},
+    {"id": "C19_N2_typed_ptr", "theorem": "Iora.C19.N2_typed_ptr", "kind": "proved", "statement": "typed PTR = the RDATA name, any compression within the limits"},
+    {"id": "C19_N2_typed_mx", "theorem": "Iora.C19.N2_typed_mx", "kind": "proved", "statement": "typed MX = preference + exchange name (incl. the null MX `0 .`), any compression within the limits"},
+    {"id": "C19_N2_typed_srv", "theorem": "Iora.C19.N2_typed_srv", "kind": "proved", "statement": "typed SRV = priority, weight, port + target name (incl. target `.`), any compression within the limits"},
     {"id": "C19_N2_typed_none", "theorem": "Iora.C19.N2_typed_none", "kind": "proved", "statement": "types without a typed parser yield no typed record"},
     {"id": "C19_N6a", "theorem": "Iora.C19.N6_contained", "kind": "proved",
      "statement": "processResponse ends normally for arbitrary bytes and any pending set (every parser exception caught; nothing else can happen by N3)"},
@@ -54,18 +71,24 @@ OBLIGATIONS = [
      "statement": "a rejected message of >= 2 bytes completes exactly the pending query keyed by its first two bytes with a parse error"},
     {"id": "C19_N6c", "theorem": "Iora.C19.N6_ok_completes", "kind": "proved",
      "statement": "an accepted message completes the pending query keyed by its first two bytes (= header id) with the parsed result"},
+    {"id": "C19_N6_q_refuted", "theorem": "Iora.C19.N6_question_checked_refuted", "kind": "refuted", "finding": "FC19e",
+     "statement": "NOT (a response is accepted for a pending query only if its question section is the asked question): processResponse keys by (id, server, port) only, "
+                  "and DnsResolver caches the result under the asked question without comparing"},
     {"id": "C19_N5", "theorem": "Iora.C19.N5_served_only_fresh", "kind": "proved",
      "statement": "for every history and clock: a served answer was stored under the same normalised key, TTL > 0, now < t + ttl, key untouched since"},
     {"id": "C19_N5b", "theorem": "Iora.C19.N5_put_ttl_is_minimum", "kind": "proved", "statement": "the TTL of put is <= the TTL of every record of the result"},
-    {"id": "C19_N5c", "theorem": "Iora.C19.N5_key_iff", "kind": "proved", "statement": "same key iff same type, class and lower-cased name"},
-    {"id": "C19_N5d", "theorem": "Iora.C19.N5_zero_ttl_guard", "kind": "proved", "statement": "Gen: TTL 0 is never stored (F14 repair); expiry comparison is strict"},
+    {"id": "C19_N5c", "theorem": "Iora.C19.N5_key_iff", "kind": "proved", "statement": "same key iff same type, class and ASCII-lower-cased name"},
+    {"id": "C19_N5d", "theorem": "Iora.C19.N5_zero_ttl_guard", "kind": "gen-conformance", "statement": "Gen tripwire (rfl): TTL 0 is never stored (F14 repair); expiry comparison is strict"},
+    {"id": "C19_N5_lock", "theorem": "Iora.C19.N5_lock_skeleton", "kind": "gen-conformance",
+     "statement": "Gen tripwire (rfl): set/get/remove/size and the purge sweep use _cache only inside the scope of a guard over _mutex"},
 ]
 ANCHOR_FILES = ["include/iora/network/dns/dns_message.hpp", "include/iora/network/dns/dns_cache.hpp",
                 "include/iora/util/expiring_cache.hpp", "include/iora/network/dns/dns_types.hpp", "include/iora/network/dns/dns_transport.hpp"]
 
 T_A, T_NS, T_CNAME, T_SOA, T_PTR, T_MX, T_TXT, T_AAAA, T_SRV, T_NAPTR = 1, 2, 5, 6, 12, 15, 16, 28, 33, 35
 TYPED = (T_A, T_CNAME, T_SOA, T_PTR, T_MX, T_TXT, T_AAAA, T_SRV, T_NAPTR)
-MAX_NAME_WIRE = 253          # the decoder's cap on sum(len+1) (RFC 1035 would allow 254)
+MAX_NAME_WIRE = 254          # RFC 1035 2.3.4: 255 octets on the wire including the root label
+MAX_JUMPS = 128              # the decoder's bound on compression pointers followed per name
 
 
 # ================================================================== canonical dump (same format as the harness / driver)
@@ -137,6 +160,7 @@ class Enc:
         self.pf = p_forward
         self.name_starts = []  # offsets at which a name was written (for the name-targeted mutations)
         self.n_ptr = 0
+        self.n_high = 0        # pointers to offsets >= 0x0800
         self.n_fwd = 0
         self.max_chain = 0
         self.depth = {}        # offset -> pointer hops needed from there
@@ -161,6 +185,8 @@ class Enc:
                 starts.append((i, here))
                 self.b += bytes([0xC0 | (off >> 8), off & 255])
                 self.n_ptr += 1
+                if off >= 0x0800:
+                    self.n_high += 1
                 self.max_chain = max(self.max_chain, d)
                 for (j, pos) in starts:
                     self._reg(tuple(labels[j:]), pos, d)
@@ -331,7 +357,7 @@ def fix_rdata_quirks(r, enc):
     return r
 
 
-def build_message(rng, p_compress=None, p_forward=None, nq=None, counts=None, kinds=None):
+def build_message(rng, p_compress=None, p_forward=None, nq=None, counts=None, kinds=None, ballast=0):
     """A well-formed response + the generator's own description of what it encodes."""
     pc = rng.choice([0, 30, 60, 90, 100]) if p_compress is None else p_compress
     pf = rng.choice([0, 0, 0, 5, 15]) if p_forward is None else p_forward
@@ -349,8 +375,17 @@ def build_message(rng, p_compress=None, p_forward=None, nq=None, counts=None, ki
         enc.name(q["name"])
         enc.u16(q["type"]); enc.u16(q["cls"])
         msg["questions"].append(q)
+    first_rec = True
     for sec, cnt in (("an", an), ("ns", ns), ("ar", ar)):
         for _ in range(cnt):
+            if ballast and first_rec:
+                # opaque ballast record, then forget the names written so far: what follows is compressed against names at high offsets
+                r = {"name": rand_name(rng, base), "type": 99, "cls": 1, "ttl": 1, "spec": {"raw": rng.bytes(ballast)}}
+                emit_rr(enc, rng, r)
+                msg[sec].append(r)
+                enc.sfx.clear()
+                first_rec = False
+                continue
             r = rand_record(rng, base, kinds)
             emit_rr(enc, rng, r)
             msg[sec].append(r)
@@ -376,7 +411,7 @@ def build_message(rng, p_compress=None, p_forward=None, nq=None, counts=None, ki
     if len(wire) > 65535:
         return None
     msg["wire"] = wire
-    msg["stats"] = {"pointers": enc.n_ptr, "forward": enc.n_fwd, "max_chain": enc.max_chain}
+    msg["stats"] = {"pointers": enc.n_ptr, "forward": enc.n_fwd, "max_chain": enc.max_chain, "high_pointers": enc.n_high}
     msg["name_starts"] = enc.name_starts
     return msg
 
@@ -412,6 +447,25 @@ def gen_valid_cases(rng, n):
                         ops.append("rdname %s %d %d %d" % (hexs(msg["wire"]), r["rdata_start"], rng.choice([o, o, 0, 1, r["rdata_len"] - 1, r["rdata_len"]]), r["rdata_len"]))
             if ops:
                 cases.append({"cat": "rdname", "ops": ops[:6]})
+    return cases
+
+
+def gen_large_cases(rng, n):
+    """Valid responses of 4 - 16 KB: owner and RDATA names point at offsets above 0x07FF / 0x0FFF / near 0x3FFF (every bit of
+    the 14-bit pointer is exercised on well-formed input, in decodeName and in decodeNameFromRdata)."""
+    cases = []
+    for i in range(n):
+        msg = None
+        while msg is None:
+            target = rng.choice([4500, 9000, 16000])
+            # a first opaque record as ballast moves everything behind it to high offsets; names after it are fresh, so
+            # later pointers target high offsets
+            enc_counts = (rng.range(6, 14), rng.choice([0, 1, 2]), rng.choice([0, 2]))
+            msg = build_message(rng, p_compress=rng.choice([90, 100]), p_forward=0, counts=enc_counts, ballast=target,
+                                kinds=[T_CNAME, T_MX, T_SRV, T_PTR, T_NS, T_SOA, T_NAPTR, T_A, T_TXT])
+        hi = msg["stats"]["high_pointers"]
+        cases.append({"cat": "valid-large", "ops": ["parse " + hexs(msg["wire"])], "expect": [show_msg(msg)], "carve": sorted(carve_out(msg)),
+                      "stats": msg["stats"], "size": len(msg["wire"]), "high_pointers": hi})
     return cases
 
 
@@ -629,8 +683,8 @@ def gen_gadget_cases(rng):
     # owner-name loops in each record section
     for sec in ("an", "ns", "ar"):
         must_err("owner loop in " + sec, hdr(**{sec: 1}) + b"\xc0\x0c" + rr_fixed(1, 5, b"\x01\x02\x03\x04"), "loop")
-    # name length boundary: wire 253 accepted, 254 rejected (the decoder's own limit)
-    for total, ok in ((252, True), (253, True), (254, False), (255, False), (300, False)):
+    # name length boundary (RFC 1035 2.3.4): 254 octets + root label = 255 accepted, more rejected
+    for total, ok in ((252, True), (253, True), (254, True), (255, False), (256, False), (300, False)):
         labels = []
         left = total
         while left > 0:
@@ -641,11 +695,9 @@ def gen_gadget_cases(rng):
             left -= l + 1
         assert wire_len(labels) == total
         w = hdr(qd=1) + b"".join(bytes([len(l)]) + l for l in labels) + b"\x00" + q_tail
-        if ok or total == 254:
+        if ok:
             exp = "ok h=4660,1,0,0,0,1,1,0,0,1,0,0,0 q=%s:1:1 an=- ns=- ar=- A=- AAAA=- SRV=- NAPTR=- CNAME=- MX=- TXT=- PTR=- SOA=-" % hx(dotted(labels))
             c = {"cat": "boundary", "tag": "name wire %d" % total, "ops": ["parse " + hexs(w)], "expect": [exp]}
-            if total == 254:
-                c["carve"] = ["FC19b"]      # legal per RFC 1035 2.3.4 (255 octets with the root label); hypothesis `wire <= 253` of N1_sound fails
             cases.append(c)
         else:
             cases.append({"cat": "boundary", "tag": "name wire %d" % total, "ops": ["parse " + hexs(w)], "must_err": True, "kind": "nameTooLong"})
@@ -687,7 +739,7 @@ def gen_gadget_cases(rng):
         exp = "ok h=4660,1,0,0,0,1,1,0,0,0,1,0,0 q=- an=61:%d:1:60:0:- ns=- ar=- " % t + " ".join("%s=%s" % (k, groups[k]) for k in ("A", "AAAA", "SRV", "NAPTR", "CNAME", "MX", "TXT", "PTR", "SOA"))
         cases.append({"cat": "boundary", "tag": "rdlength 0 type %d" % t, "ops": ["parse " + hexs(w)], "expect": [exp]})
     # long pointer chains (prompt termination): every hop is a fresh target
-    for hops in (10, 200, 1500):
+    for hops in (10, 127, 128, 129, 200, 1500):
         body = bytearray(b"\x03end\x00")
         first = 12
         offs = [first]
@@ -698,17 +750,20 @@ def gen_gadget_cases(rng):
             offs.append(off)
         start = offs[-1]
         w = hdr() + bytes(body)
-        cases.append({"cat": "chain", "tag": "chain of %d pointers" % hops, "ops": ["name %s %d" % (hexs(w), start)], "expect": ["ok %s %d" % (hx(b"end"), start + 2)]})
+        if hops <= MAX_JUMPS:
+            cases.append({"cat": "chain", "tag": "chain of %d pointers" % hops, "ops": ["name %s %d" % (hexs(w), start)], "expect": ["ok %s %d" % (hx(b"end"), start + 2)]})
+        else:       # beyond the documented bound on compression pointers per name (legal per RFC, refused by design: N1 hypothesis hops <= 128)
+            cases.append({"cat": "chain", "tag": "chain of %d pointers" % hops, "ops": ["name %s %d" % (hexs(w), start)], "must_err": True, "kind": "tooManyJumps"})
         # and the same chain closed into a loop
         w2 = bytearray(w)
         w2[12:14] = bytes([0xC0 | (start >> 8), start & 255])
         cases.append({"cat": "chain", "tag": "closed chain of %d" % hops, "ops": ["name %s %d" % (hexs(bytes(w2)), start)], "must_err": True, "kind": "loop"})
-    # amplification: many records whose owner names walk a 150-hop chain kept in the RDATA of a first opaque record
+    # amplification: many records whose owner names walk a 120-hop chain kept in the RDATA of a first opaque record
     nrec = 150
     shift = 1 + 10
     body2 = bytearray(b"\x01z\x00")
     offs = [12 + shift]
-    for i in range(150):
+    for i in range(120):
         off = 12 + shift + len(body2)
         body2 += bytes([0xC0 | (offs[-1] >> 8), offs[-1] & 255])
         offs.append(off)
@@ -716,7 +771,7 @@ def gen_gadget_cases(rng):
     w = hdr(an=1 + nrec) + b"\x00" + rr_fixed(99, 1, bytes(body2)) + recs
     raws = ["-:99:1:1:%d:%s" % (len(body2), hexs(bytes(body2)))] + ["7a:99:1:1:0:-"] * nrec
     exp = "ok h=4660,1,0,0,0,1,1,0,0,0,%d,0,0 q=- an=%s ns=- ar=- A=- AAAA=- SRV=- NAPTR=- CNAME=- MX=- TXT=- PTR=- SOA=-" % (1 + nrec, ";".join(raws))
-    cases.append({"cat": "chain", "tag": "150 records x 150-hop chain", "ops": ["parse " + hexs(w)], "expect": [exp]})
+    cases.append({"cat": "chain", "tag": "150 records x 121-hop chain", "ops": ["parse " + hexs(w)], "expect": [exp]})
     return cases
 
 
@@ -729,7 +784,7 @@ def ref_encode_name(name):
         if len(l) > 63:
             return None, "encLabel"
     enc = b"".join(bytes([len(l)]) + l for l in labels) + b"\x00"
-    if len(enc) > 253:
+    if len(enc) > 255:
         return None, "encName"
     return enc, None
 
@@ -741,7 +796,7 @@ def rand_text_name(rng):
     if k == 1:
         return b".".join([b"x" * rng.choice([63, 64, 62])] + [b"com"])
     if k == 2:
-        n = rng.choice([249, 250, 251, 252, 253, 254])     # presentation length around the limit
+        n = rng.choice([250, 251, 252, 253, 254, 255])     # presentation length around the limit (253 characters = 255 octets)
         parts = []
         left = n
         while left > 0:
@@ -759,7 +814,7 @@ def gen_query_cases(rng, n):
         nq = rng.choice([0, 1, 1, 1, 2, 3])
         qs = [(rand_text_name(rng), rng.choice([1, 28, 33, 35, 255, rng.below(65536)]), rng.choice([1, 255, 3])) for _ in range(nq)]
         rd = rng.below(2)
-        hid = rng.range(1, 65535)
+        hid = rng.range(1, 65535) if rng.chance(5, 6) else 0      # 0: the code generates the id; both sides print xxxx for it
         op = "query %d %d" % (rd, hid) + "".join(" %s %d %d" % (hexs(nm), t, c) for nm, t, c in qs)
         body = b""
         err = None
@@ -775,7 +830,10 @@ def gen_query_cases(rng, n):
         wire = hdr(hid, 0x0100 if rd else 0, nq) + body
         qtxt = sep(["%s:%d:%d" % (hx(b".".join(l for l in nm.split(b".") if l)), t, c) for nm, t, c in qs])
         dump = "ok h=%d,0,0,0,0,%d,0,0,0,%d,0,0,0 q=%s an=- ns=- ar=- A=- AAAA=- SRV=- NAPTR=- CNAME=- MX=- TXT=- PTR=- SOA=-" % (hid, rd, nq, qtxt)
-        cases.append({"cat": "query", "ops": [op, "parse " + hexs(wire)], "expect": [hexs(wire), dump]})
+        if hid == 0:
+            cases.append({"cat": "query", "ops": [op], "expect": ["xxxx" + hexs(wire)[4:]]})
+        else:
+            cases.append({"cat": "query", "ops": [op, "parse " + hexs(wire)], "expect": [hexs(wire), dump]})
     for i in range(n // 2):
         nm = rand_text_name(rng)
         e, k = ref_encode_name(nm)
@@ -823,7 +881,8 @@ def answer_msg(rng, hid, ttls):
 
 def gen_cache_cases(rng, n):
     cases = []
-    NAMES = [b"example.com", b"EXAMPLE.com", b"Example.COM", b"a.example.com", b"b", b"B", b"", b"x\xc3\x89", b"[", b"@", b"`", b"{"]
+    NAMES = [b"example.com", b"EXAMPLE.com", b"Example.COM", b"a.example.com", b"b", b"B", b"", b"x\xc3\x89", b"[", b"@", b"`", b"{",
+             b"\xdd", b"\xfd", b"i", b"I", b"\xc0", b"\xe0"]       # 0xDD/0xFD: 'İ'/'ı' in ISO-8859-9 (a locale tolower maps 0xDD to 'i')
     for ci in range(n):
         default = rng.choice([300, 300, 60, 1, 0, 5])
         ops = ["c new %d" % default]
@@ -915,7 +974,10 @@ def monitor_cache(c, impl):
     now = 0
     cur_default = 300
     for op, l in zip(c["ops"], impl):
-        if l.startswith("throw") or l.startswith("crash:") or l.startswith("purge-stuck"):
+        if l.startswith("purge-stuck"):
+            bad.append("MACHINERY: purge gate did not complete within 30 s: %s" % op[:80])     # load-sensitive: judged in run()
+            break
+        if l.startswith("throw") or l.startswith("crash:"):
             bad.append("N5: cache operation failed: %s -> %s" % (op[:80], l[:80]))
             break
         t = op.split()
@@ -967,7 +1029,7 @@ def monitor_msg(c, impl):
             bad.append("N4: decoding does not terminate promptly (watchdog): %s" % op[:120])
         elif l.startswith("throw") or l.startswith("crash:"):
             bad.append("N3: input makes the decoder crash / throw a foreign exception: %s -> %s" % (op[:90], l[:80]))
-        elif not (l.startswith("ok") or l.startswith("err ") or l == "bad-op" or all(ch in "0123456789abcdef-" for ch in l)):
+        elif not (l.startswith("ok") or l.startswith("err ") or l == "bad-op" or all(ch in "0123456789abcdef-x" for ch in l)):
             bad.append("N3: unexpected outcome: %s -> %s" % (op[:90], l[:80]))
     if bad:
         return bad
@@ -976,7 +1038,8 @@ def monitor_msg(c, impl):
             if c.get("must_err_ops") is not None and i not in c["must_err_ops"]:
                 continue
             if not l.startswith("err "):
-                bad.append("N4: malformed input (%s) is not reported as an error: %s -> %s" % (c.get("tag", ""), op[:90], l[:80]))
+                pre = "N4j: more than 128 compression pointers in one name are followed" if c.get("kind") == "tooManyJumps" else "N4: malformed input"
+                bad.append("%s (%s) is not reported as an error: %s -> %s" % (pre, c.get("tag", ""), op[:90], l[:80]))
     if "expect" in c and not c.get("carve"):
         tag = {"valid": "N2", "name": "N1", "query": "N1q", "encode": "N1", "boundary": "N2", "gadget-rdata": "N4", "chain": "N4", "corpus": "N2"}.get(c["cat"], "N2")
         for op, l, e in zip(c["ops"], impl, c["expect"]):
@@ -1008,6 +1071,16 @@ def replay(ctx):
     if not hb:
         return 1
     cat = obj.get("category") or ("cache" if ops[0].startswith("c ") else "corpus")
+    if cat == "cost":
+        out, rc, err = ctx.run_lines([hb], ["timed 3 " + hexs(_cost_gadget(0, 4700)), ops[0].replace("parse ", "timed 3 ")], timeout=300)
+        print("benign: %s\ninput:  %s" % tuple((out + ["crash/timeout"] * 2)[:2]))
+        try:
+            base = max(int(out[0].split()[1]), 200); us = int(out[1].split()[1])
+            still = us > 120 * base and us > 400000
+        except (IndexError, ValueError):
+            still = True
+        print("replay: %s" % ("still failing" if still else "no longer failing"))
+        return 1 if still else 0
     c = {"cat": cat, "ops": ops, "tag": obj.get("tag")}
     if obj.get("expected_by_reference"):
         c["expect"] = obj["expected_by_reference"]
@@ -1058,6 +1131,7 @@ def run(ctx: Ctx):
         cases = list(corpus)
         cases += gen_gadget_cases(rng.fork("gadget"))
         cases += gen_valid_cases(rng.fork("valid"), 4000 * scale)
+        cases += gen_large_cases(rng.fork("large"), 60 * scale)
         cases += gen_name_cases(rng.fork("name"), 800 * scale)
         cases += gen_mutated_cases(rng.fork("mut"), 6000 * scale)
         cases += gen_query_cases(rng.fork("query"), 600 * scale)
@@ -1092,19 +1166,21 @@ def run(ctx: Ctx):
             res += part
         n_mismatch = 0
         skipped_after_crash_cap = 0
-        ptr_total = fwd_total = 0
+        ptr_total = fwd_total = high_ptr = 0
         max_chain = 0
+        machinery = []
         mut_kinds = {}
         outcome = {}
         for c, impl, model in res:
             dist[c["cat"]] = dist.get(c["cat"], 0) + 1
             if "stats" in c:
                 ptr_total += c["stats"]["pointers"]; fwd_total += c["stats"]["forward"]; max_chain = max(max_chain, c["stats"]["max_chain"])
+                high_ptr += c["stats"].get("high_pointers", 0)
             for k in c.get("mut", []):
                 mut_kinds[k] = mut_kinds.get(k, 0) + 1
             for l in impl:
                 key = l.split()[0] + (" " + l.split()[1] if l.startswith("err ") else "") if l else "?"
-                if key and all(ch in "0123456789abcdef" for ch in key):
+                if key and all(ch in "0123456789abcdefx" for ch in key):
                     key = "hex"
                 outcome[key] = outcome.get(key, 0) + 1
             ctx.count_case("\n".join(c["ops"]), nontrivial=any(not l.startswith("err tooShort") for l in impl))
@@ -1114,6 +1190,14 @@ def run(ctx: Ctx):
                 skipped_after_crash_cap += 1          # the harness was not run on this case at all (vlib's crash cap): nothing to judge
                 continue
             fails = monitor_cache(c, impl) if c["cat"] == "cache" else monitor_msg(c, impl)
+            if fails and fails[0].startswith("MACHINERY"):
+                # the purge gate of the HARNESS timed out (load-sensitive): only a solo reproduction makes it a finding about the code
+                out2, rc2, _ = ctx.run_lines([hb], c["ops"], timeout=300)
+                if any(l.startswith("purge-stuck") for l in out2):
+                    fails = ["N5: the purge thread does not complete a sweep within 30 s even when the history is run alone: %s" % c["ops"][-1][:80]]
+                else:
+                    machinery.append(fails[0])
+                    continue
             mism = [(i, a, b) for i, (a, b) in enumerate(zip(impl, model)) if a != b]
             if c.get("carve"):
                 # hypothesis of a partial theorem fails on this input: counted under the finding iff it is listed (DESIGN 5.3)
@@ -1152,23 +1236,45 @@ def run(ctx: Ctx):
                                       % (c["ops"][0][:120], impl[0][:100], model[0][:100]),
                                       {"broken": {"correspondence": "dns lockstep (harness/c19_dns_transport.cpp vs Model/DnsTransport.lean)"},
                                        "ops": c["ops"], "observed": impl, "expected_by_model": model}, found_input=False)
+        if machinery:
+            ctx.notes.append("%d cache histories not judged: harness purge gate timed out under load, not reproduced solo" % len(machinery))
+        if not hung:
+            cost_monitor(ctx, hb)
         ctx.extra["generator"] = {"pointers_emitted": ptr_total, "forward_pointers": fwd_total, "longest_pointer_chain_in_valid_messages": max_chain,
+                                  "pointers_to_offsets_above_0x07ff_in_valid_messages": high_ptr,
                                   "mutation_kinds": mut_kinds, "impl_outcomes": dict(sorted(outcome.items(), key=lambda kv: -kv[1])[:30])}
         # recorded finding F13A: replay its witness against the real code
-        replay_known(ctx, hb, known_ids, carve_counts)
+        replay_known(ctx, hb, known_ids, carve_counts, hbt)
         out, rc, err = ctx.run_lines([hb], ["c new 300", "c put 61 1 1 1 5", "c t 6000", "c purge", "c interposer"], timeout=60)
         ctx.extra["interposer_counts"] = out[-1] if out else "?"
+        import re as _re
+        mi = _re.match(r"clock_reads=(\d+) sweeps=(\d+)$", out[-1] if out else "")
+        if not mi or int(mi.group(1)) < 3 or int(mi.group(2)) != 1 or out[3].split(" | ")[0] != "ok" or "n=0" not in out[3]:
+            # the virtual clock / purge gate are the tie of every N5 case: if they do not fire, those cases prove nothing
+            ctx.violation("correspondence", "interposers did not fire as expected (virtual steady clock / purge-thread gate): %s" % (out[-2:] if out else out),
+                          {"broken": {"correspondence": "harness/c19_dns.cpp interposers", "detail": str(out)}}, found_input=False)
     ctx.extra["input_distribution"] = dist
     ctx.extra["partial_hypotheses"] = carve_counts
     ctx.extra["repo_tree_sha"] = ctx.repo_tree_sha(ANCHOR_FILES)
-    ctx.extra["refuted"] = [{"statement": "Iora.C19.N2_A_statement", "finding": "F13A"}, {"statement": "Iora.C19.N1_rfc_limit_statement", "finding": "FC19b"}]
+    ctx.extra["refuted"] = [{"statement": "Iora.C19.N2_A_statement", "finding": "F13A"}, {"statement": "Iora.C19.N6_question_checked_statement", "finding": "FC19e"}]
     ctx.extra["not_proved"] = NOT_PROVED
+    gen_text = ""
+    try:
+        from vlib.core import LEAN as _LEAN
+        gen_text = open(os.path.join(_LEAN, "IoraModel", "Gen", "Dns.lean")).read()
+    except OSError:
+        pass
+    if "def lowerAsciiOnly : Bool := true" not in gen_text:
+        ctx.assumptions.append("the process runs in the \"C\" locale: DnsCacheKey::fromQuestion calls <cctype> tolower, which equals the model's ASCII fold there only "
+                               "(::tolower on a char >= 0x80 is undefined; an 8-bit Turkish locale maps 0xDD to 'i' and merges keys)")
     ctx.assumptions += ["steady_clock reading + TTL·10^9 < 2^63 ns (no overflow of the expiration time point; uptime far below 146 years)",
                         "DnsCache default TTL in [0, 2^32) seconds",
                         "AAAA text form: inet_ntop/inet_pton (libc) round-trip the 16 RDATA bytes; the harness canonicalises the text through inet_pton",
                         "message size < 2^63 (offset arithmetic is modelled in Nat; checkBounds cannot wrap)",
                         "processResponse is modelled for one server:port and a transport mode other than Both (no TCP fallback)",
-                        "cache operations are atomic steps (every ExpiringCache method holds _mutex for its whole body); the purge thread is modelled as an operation of the history"]
+                        "cache operations are atomic steps: the translator checks on every run that each ExpiringCache method and the purge sweep use _cache only inside the scope of a "
+                        "lock_guard/unique_lock over _mutex (Gen.cacheLockedMethods, N5_lock_skeleton); the purge thread is modelled as an operation of the history",
+                        "names: at most 128 compression pointers are followed per name (documented bound DNS_MAX_COMPRESSION_JUMPS; longer chains, legal per RFC 1035, are rejected by design)"]
     return ctx.finish(level="proof", rule="a case = one op list (parse/name/rdname/enc/query ops on one generated or mutated message, or one cache history on a fresh DnsCache); "
                       "distinct = distinct op lists; non-trivial = at least one answer other than `err tooShort`")
 
@@ -1180,15 +1286,63 @@ NOT_PROVED = [
 ]
 
 
+def _cost_gadget(hops, nrec):
+    """One opaque record whose RDATA holds a FORWARD chain of `hops` pointers ending in `01 'z' 00`, then `nrec` records whose owner
+    name is a pointer to the head of the chain: every record walks the whole chain."""
+    shift = 12 + 1 + 10
+    body = bytearray()
+    for i in range(hops):
+        t = shift + 2 * (i + 1)
+        body += bytes([0xC0 | (t >> 8), t & 255])
+    body += b"\x01z\x00"
+    recs = b"".join(bytes([0xC0 | (shift >> 8), shift & 255]) + rr_fixed(99, 1, b"") for _ in range(nrec))
+    return hdr(an=1 + nrec) + b"\x00" + rr_fixed(99, 1, bytes(body)) + recs
+
+
+def cost_monitor(ctx, hb):
+    """N4 at message level, on the implementation alone (hook-free proxy for the number of loop iterations: wall time of
+    DnsMessage::parse, best of 3, NORMALISED by the time of a benign message of the same size and record count in the same process).
+    The model's theorem says work <= ((size + 11) / 5) * 771 iterations, i.e. a bounded multiple of the benign cost; a decoder whose
+    work is records x chain length (no bound on pointers per name) is two orders of magnitude above."""
+    benign = _cost_gadget(0, 4700)
+    worst_legal = _cost_gadget(127, 4700)          # 128 pointers per owner name: the most a name may cost
+    review = _cost_gadget(8172, 4098)              # the reviewer's counter-example: 4 098 records x 8 172-hop forward chain, 65 546 bytes
+    ops = ["timed 3 " + hexs(benign), "timed 3 " + hexs(worst_legal), "timed 3 " + hexs(review)]
+    out, rc, err = ctx.run_lines([hb], ops, timeout=120)
+    tags = ["benign", "128 pointers per name x 4700 records", "8172-hop chain x 4098 records"]
+    res = {}
+    for tag, op, l in zip(tags, ops, out + ["crash:timeout" if rc == -999 else "crash:%s" % rc] * (len(ops) - len(out))):
+        t = l.split()
+        if not t or t[0] != "timed":
+            ctx.violation("property", "N4: decoding does not terminate promptly (cost monitor, watchdog 120 s): %s -> %s" % (tag, l[:60]),
+                          {"ops": [op.replace("timed 3 ", "parse ")], "observed": [l], "category": "cost"}, found_input=True, cls="property:N4-cost")
+            return
+        res[tag] = (int(t[1]), " ".join(t[2:]))
+    base = max(res["benign"][0], 200)               # microseconds; floor against timer granularity
+    ctx.extra["cost_monitor_us"] = {k: v[0] for k, v in res.items()}
+    ctx.extra["cost_monitor_ratio"] = {k: round(v[0] / base, 1) for k, v in res.items()}
+    for tag, op in zip(tags[1:], ops[1:]):
+        us = res[tag][0]
+        if us > 120 * base and us > 400000:
+            ctx.violation("property", "N4: work is not linear in the message size: %s takes %.3f s, %d x the time of a benign message of the same size (bound from the model: a constant factor)"
+                          % (tag, us / 1e6, us // base),
+                          {"ops": [op.replace("timed 3 ", "parse ")], "observed": [out[tags.index(tag)]], "benign_us": base, "category": "cost"}, found_input=True,
+                          cls="property:N4-cost")
+    if not res["128 pointers per name x 4700 records"][1].startswith("ok"):
+        ctx.violation("property", "N1: a well-formed response whose owner names follow 128 pointers each is rejected: %s" % res["128 pointers per name x 4700 records"][1],
+                      {"ops": ["parse " + hexs(worst_legal)], "category": "cost"}, found_input=True)
+
+
 RECORDED = {   # finding id -> (witness file, answer of the real code while the defect is present, text)
     "F13A": ("F13A-a-record-192-x-0-0.json", "err malicious",
              "well-formed A record 192.x.0.0 (x<64) rejected as a 'malicious compression pointer'"),
-    "FC19b": ("FC19b-name-255-octets.json", "err nameTooLong",
-              "legal maximum-length name (255 octets on the wire) rejected: totalLength compared with DNS_MAX_NAME_SIZE=253"),
+    "FC19e": ("FC19e-response-for-another-question.json", "R:4660:",
+              "a response with the pending query's id but a DIFFERENT question section completes the query (processResponse / DnsResolver never compare "
+              "result.questions with the request) and is then cached under the asked question"),
 }
 
 
-def replay_known(ctx, hb, known_ids, carve_counts):
+def replay_known(ctx, hb, known_ids, carve_counts, hbt=None):
     """DESIGN 5.3: every recorded finding's witness is replayed against the real code on every run."""
     for fid, (fn, bad_answer, text) in RECORDED.items():
         d = os.path.join(corpus_dir(), fn)
@@ -1196,7 +1350,10 @@ def replay_known(ctx, hb, known_ids, carve_counts):
             ctx.violation("correspondence", "witness file of recorded finding %s is missing: %s" % (fid, fn), {"broken": {"correspondence": fn}})
             continue
         w = json.load(open(d))
-        out, rc, err = ctx.run_lines([hb], w["ops"], timeout=60)
+        h = hbt if w["ops"][0].startswith("resp ") else hb
+        if not h:
+            continue
+        out, rc, err = ctx.run_lines([h], w["ops"], timeout=60)
         still = bool(out) and out[0].startswith(bad_answer)
         if still and fid in known_ids:
             ctx.known_lines.append("KNOWN-FINDING: property=C19 id=%s %s (witness corpus/C19/%s; %d generated cases in the carve-out this run)"
@@ -1286,6 +1443,8 @@ def load_corpus():
         for fn in sorted(os.listdir(d)):
             if fn.endswith(".json"):
                 c = json.load(open(os.path.join(d, fn)))
+                if c.get("cat") == "transport-witness":
+                    continue                      # replayed by replay_known() through the transport harness
                 c.setdefault("cat", "corpus")
                 c["file"] = fn
                 out.append(c)
